@@ -1012,7 +1012,13 @@ void rc_generate (VChoices *c, const ProgSpec *ps, const RunOpts *o, RunCfg *rc)
     int w = 1 << (2 + vc_pick (c, 5)), q = 1 + (int) vc_pick (c, 4);
     n = w * q + (int) vc_pick (c, 3) - 1;
   } else if (k < 15) n = (int) vc_pick (c, (uint32_t) (o->n_max + 1));
-  else n = o->big_n ? 1000 + (int) vc_pick (c, (uint32_t) o->big_n) : (int) vc_pick (c, (uint32_t) (o->n_max + 1));
+  else {
+    uint32_t raw = vc_u32 (c);
+    n = o->big_n ? 1000 + (int) (raw % (uint32_t) o->big_n) : (int) (raw % (uint32_t) (o->n_max + 1));
+    /* rows of tens of thousands of elements: 16.16 resampling positions pass 2^31, element indices pass 2^15/2^16
+       (upper bits of the same choice) */
+    if (o->huge_n && o->big_n && (raw / (uint32_t) o->big_n) % 4 == 3) n = 10000 + (int) ((raw / (uint32_t) o->big_n / 4) % 60001);
+  }
   if (ps->const_n) n = ps->const_n;
   if (ps->n_max && n > ps->n_max) n = ps->n_max;
   if (ps->n_min && n < ps->n_min) n = ps->n_min;
